@@ -29,10 +29,12 @@ package ecs
 
 //@ func Mask.Get(b, bit) (r)
 //@   props C04
+//@   requires validID(bit.id)
 //@   ensures r == specBit(*b, bit.id)
 
 //@ func Mask.Set(b, bit, value)
 //@   props C04
+//@   requires validID(bit.id)
 //@   ensures forall! i uint8 :: specBit(*b, i) == ite(i == bit.id && validID(i), value, old(specBit(*b, i)))
 //@   modifies b.bits
 
@@ -80,6 +82,7 @@ package ecs
 
 //@ func All(ids) (r)
 //@   props C04
+//@   requires forall k int :: 0 <= k && k < len(ids) ==> validID(ids[k].id)
 //@   ensures forall i uint8 :: specBit(r, i) == (validID(i) && exists k int :: 0 <= k && k < len(ids) && ids[k].id == i)
 //@   loop #1
 //@   loopmod mask.bits
@@ -92,6 +95,7 @@ package ecs
 
 //@ func Mask.Without(b, comps) (r)
 //@   props C04
+//@   requires forall k int :: 0 <= k && k < len(comps) ==> validID(comps[k].id)
 //@   ensures sameSet(r.Include, b)
 //@   ensures forall i uint8 :: specBit(r.Exclude, i) == (validID(i) && exists k int :: 0 <= k && k < len(comps) && comps[k].id == i)
 
